@@ -6,5 +6,6 @@ CONSTANTS
   RangeIdx = {1, 2, 3, 4}
   PredIdx = {1, 2, 3, 4, 5, 6, 7, 8, 9, 10, 11, 12}
   H = 4
+  NShards = 2
 INVARIANTS FilterContract GroupContract Partition
 CHECK_DEADLOCK FALSE
